@@ -669,14 +669,14 @@ Definition set_parent (rel : str -> str) (name : bytes) (location : str) (cfg : 
       end
   end.
 
-(* _get_related_merge_branch: note the section looked up is branch.<remote>, not
-   branch.<name> *)
-Definition get_parent_location (ssh_reser : str -> str) (remote : bytes) (cfg : gitcfg)
+(* _get_related_merge_branch for the branch called [name] (self.name.encode("utf-8")):
+   remote.<origin>.url and branch.<name>.merge (HEAD when unset) *)
+Definition get_parent_location (ssh_reser : str -> str) (name : bytes) (cfg : gitcfg)
   : res (option str) :=
   match cfg_url cfg with
   | None => Ok None
   | Some location =>
-      let ref := match merge_get remote (cfg_merge cfg) with
+      let ref := match merge_get name (cfg_merge cfg) with
                  | Some r => r
                  | None => HEAD
                  end in
@@ -783,7 +783,7 @@ Definition run_url (reser location : str) (branch : option str) (ref : option by
   | Ok u => OL [ostr u; oback (bzr_url_to_git_url u)]
   end.
 
-(* set_parent(location) on a fresh config then _get_parent_location;
+(* set_parent(location) on a fresh config then _get_parent_location ([remote] is unused);
    [relv] = observed relative_url(this_url, target_url) *)
 Definition run_parent (reser relv : str) (name remote : bytes) (location : str) : obs :=
   match set_parent (fun _ => relv) name location {| cfg_url := None; cfg_merge := [] |} with
@@ -791,5 +791,5 @@ Definition run_parent (reser relv : str) (name remote : bytes) (location : str) 
   | Ok cfg =>
       OL [oopt ostr (cfg_url cfg);
           oopt OB (merge_get name (cfg_merge cfg));
-          ores (oopt ostr) (get_parent_location (fun _ => reser) remote cfg)]
+          ores (oopt ostr) (get_parent_location (fun _ => reser) name cfg)]
   end.
